@@ -1,0 +1,12 @@
+//go:build verif
+
+package services
+
+// VerifDefaultServices gives an external verification harness the background
+// services this package registers (the prune / expire jobs, the dead-letter
+// sweep, the HTTP pusher, ...), so that their glue around the actions (timer
+// loop, transaction handling, default parameters, pusher discovery) can be
+// run against a database of the harness's choosing. The services are the
+// package's singletons: run one at a time. Add-only; compiled only with
+// -tags verif.
+func VerifDefaultServices() []Service { return defaultServices }
